@@ -263,6 +263,56 @@ def _replay(task):
     return None
 
 
+def _scrambled_order_checks(_):
+    """Topologies whose atom index order differs from the chain -> residue -> atom traversal order (atoms added to the residues in
+    turns): copy, deepcopy, pickle, join and subset(all) must preserve the bond graph WITH types and orders, atom by atom."""
+    import copy, pickle
+    import mdtraj as md
+    from mdtraj.core import element as E
+    probs = []
+    for variant in range(6):
+        top = md.Topology()
+        ca = top.add_chain("P"); cb = top.add_chain("Q")
+        rs_ = [top.add_residue("ALA", ca, resSeq=3), top.add_residue("GLY", ca, resSeq=4), top.add_residue("LIG", cb, resSeq=9)]
+        order = [(0, "N"), (1, "N"), (2, "X1"), (0, "CA"), (1, "CA"), (0, "CB"), (2, "X2"), (1, "C")]
+        if variant % 2:
+            order = order[::-1]
+        if variant % 3 == 2:
+            order = order[3:] + order[:3]
+        atoms = {}
+        for ri, nm in order:
+            atoms[(ri, nm)] = top.add_atom(nm, E.get_by_symbol("C" if nm[0] in "CX" else "N"), rs_[ri], serial=100 + 7 * len(atoms))
+        bl = [((0, "N"), (0, "CA"), "single", 1), ((0, "CA"), (0, "CB"), "double", 2), ((0, "CA"), (1, "N"), "amide", None), ((1, "N"), (1, "CA"), None, None),
+              ((1, "CA"), (1, "C"), "aromatic", None), ((2, "X1"), (2, "X2"), "triple", 3), ((0, "CB"), (2, "X1"), None, 1)]
+        for a, b, ty, od in bl:
+            top.add_bond(atoms[a], atoms[b], type=_bond_type(ty) if ty else None, order=od)
+
+        def graph(t, shift_chain=0):
+            out = set()
+            for bnd in t.bonds:
+                ends = frozenset((x.residue.chain.index - shift_chain, x.residue.resSeq, x.name) for x in (bnd[0], bnd[1]))
+                out.add((ends, str(bnd.type), bnd.order))
+            return out
+        want = graph(top)
+        for how, f in (("copy", lambda t: t.copy()), ("deepcopy", copy.deepcopy), ("pickle", lambda t: pickle.loads(pickle.dumps(t))),
+                       ("subset(all)", lambda t: t.subset(list(range(t.n_atoms))))):
+            try:
+                got = graph(f(top))
+            except Exception as e:  # noqa
+                probs.append("%s of a topology with scrambled atom order raised %s" % (how, type(e).__name__)); continue
+            if got != want:
+                probs.append("%s of a topology whose index order differs from its residue order changes the bond graph (variant %d)" % (how, variant))
+        try:
+            j = top.join(top.copy())
+            first = {g for g in graph(j) if all(e[0] < 2 for e in g[0])}
+            second = {(frozenset((c - 2, r, nm) for c, r, nm in g[0]), g[1], g[2]) for g in graph(j) if all(e[0] >= 2 for e in g[0])}
+            if first != want or second != want:
+                probs.append("join of topologies whose index order differs from their residue order changes the bond graph (variant %d)" % variant)
+        except Exception as e:  # noqa
+            probs.append("join of a topology with scrambled atom order raised %s" % type(e).__name__)
+    return probs or None
+
+
 def _twin(t):
     import copy
     try:
@@ -367,6 +417,9 @@ def run(ctx):
         hs = " ; ".join("%s(%s)" % (s["op"], ",".join(str(v) for v in (s["x"], s["y"], s["dst"], s["arg"]))) for s in t[0]["hist"])
         ctx.discrepancy(key, "[%s] -> %s" % (hs, "; ".join(val["problems"])[:300]), dict(task=[t[0], t[1]], observed=val),
                         cls="%s" % (val["problems"][0][:90]))
+    (st_, sc), = pool.run_tasks(_scrambled_order_checks, [0], workers=1, batch=1, timeout=120)
+    for msg in (sc if st_ == "ok" and sc else ([] if st_ == "ok" else ["%s: %s" % (st_, str(sc)[:200])])):
+        ctx.discrepancy(None, msg, dict(task=[tasks[0][0], tasks[0][1]] if tasks else None), cls="scrambled atom order: " + msg.split(" of ")[0][:40])
     samples = [t[0]["hist"] for t in tasks[:: max(1, len(tasks) // 3)][:3]]
     cov = dict(traces_validated_against_impl=len(tasks), replays_failing=len(fails), plans=plans, samples=samples,
                explanation="every transition of Topology.tla (copy/deepcopy/pickle, every atom subset, join with and without keep_resSeq, data-frame, HDF5 and PDB "
